@@ -47,7 +47,7 @@ def gen_cases(seed: int, n_ord: int, n_flt: int, tempfile_share: float = 0.0):
         proj = c03_gen.gen_project(r, stream)
         via = "api"
         x = r.random()
-        if x < 0.03:
+        if x < 0.07:
             via = "cli"
         elif x < 0.35:
             via = "dir"
@@ -58,6 +58,9 @@ def gen_cases(seed: int, n_ord: int, n_flt: int, tempfile_share: float = 0.0):
         if r.random() < (0.3 if stream == "flt" else 0.1):
             names = [n for n, _ in FILTER_BITS] + ["no_such_filter"]
             case["filters"] = {n: r.random() < 0.4 for n in r.sample(names, r.randint(1, 3))}
+        # CLI: the documented threshold override `--min-lines W` next to a --config file that holds ANOTHER value
+        if via == "cli" and r.random() < 0.6:
+            case["cli_min_lines"] = case["W"] + 1 if case["W"] < 6 else case["W"] - 1   # the decoy written to the file
         cases.append(case)
     return cases
 
@@ -212,9 +215,13 @@ def run_impl(case):
         res["failures"] += drain_failures()
         # (2) the observable run
         if case["via"] == "cli":
-            (d / "cfg.yaml").write_text(json.dumps(cfg))
+            cfg_file, extra = json.loads(json.dumps(cfg)), []
+            if case.get("cli_min_lines"):
+                cfg_file["dry"]["min_duplicate_lines"] = case["cli_min_lines"]
+                extra = ["--min-lines", str(case["W"])]
+            (d / "cfg.yaml").write_text(json.dumps(cfg_file))
             rel = [str(p.relative_to(d)) for p in order]
-            rc, so, se = run_cli(["dry", "--format", "json", "--config", "cfg.yaml", *rel], cwd=d, home=root)
+            rc, so, se = run_cli(["dry", "--format", "json", "--config", "cfg.yaml", *extra, *rel], cwd=d, home=root)
             vs2 = parse_json_violations(so)
             if vs2 is None or rc not in (0, 1):
                 res["junk"].append(f"CLI run failed rc={rc} stdout={so[:200]} stderr={se[-300:]}")
@@ -427,7 +434,7 @@ def run(tier: str, seed: int, replay: str | None = None) -> int:
                 "function, method and module bodies at varying indentation, with interleaved blank lines, line comments, /* */ comments, "
                 "docstrings/JSDoc, imports and compound-statement headers; in mixed projects semicolon-free .js files share the Python statement text "
                 "(cross-language duplicates); about 30% of the projects carry suppressions (a dry.ignore path pattern, `# dry: ignore-block/-next`, "
-                "thailint ignore-file / ignore / ignore-next-line / ignore-start..end in fixed spellings, as comment lines or trailing comments); W in 2..6, min_occurrences in 2..4; stream `ord` uses only constructs "
+                "thailint ignore-file / ignore / ignore-next-line / ignore-start..end in fixed spellings, as comment lines or trailing comments); W in 2..6, min_occurrences in 2..4; about 7% of the projects are linted through `thailint dry --format json --config cfg.yaml`, most of them with the documented override `--min-lines W` while the file holds another threshold (the CLI value must win); stream `ord` uses only constructs "
                 "no AST block filter applies to (model = implementation exactly, all clauses judged), stream `flt` adds class fields, decorators, "
                 "multi-line calls/literals, logger calls, except/raise pairs, interfaces (stored rows must be a subset of the model's, report = "
                 "model on the stored rows; soundness, mutuality and count judged; no stored row may be one the model's filter registry drops); about 30% of the `flt` and 10% of the `ord` projects configure dry.filters (1-3 switches, incl. an unknown name); "
@@ -492,7 +499,7 @@ def run(tier: str, seed: int, replay: str | None = None) -> int:
                                              "dry.filters) on a line range of this project (verdict of the Python mirror: the Coq model could not be built/evaluated, "
                                              "see broken_obligations); entries: start, end, real answers, documented answers (1 kwarg, 2 import, 4 logger, 8 reraise, 16 registry)",
                                    "file": f["name"], "ranges": off[:5],
-                                   "case": {k: case[k] for k in ("W", "k", "stream", "via", "order_seed", "storage_mode", "ignore", "filters", "files") if k in case}})
+                                   "case": {k: case[k] for k in ("W", "k", "stream", "via", "order_seed", "storage_mode", "ignore", "filters", "cli_min_lines", "files") if k in case}})
                     break
             if chk.violations:
                 break
@@ -500,7 +507,7 @@ def run(tier: str, seed: int, replay: str | None = None) -> int:
             if bad:
                 chk.violation({"reason": "duplicate-code report violates: " + ", ".join(bad) + " (verdict of the Python mirror of the model: "
                                          "the Coq model could not be built/evaluated, see broken_obligations)",
-                               "case": {k: case[k] for k in ("W", "k", "stream", "via", "order_seed", "storage_mode", "ignore", "filters", "files") if k in case},
+                               "case": {k: case[k] for k in ("W", "k", "stream", "via", "order_seed", "storage_mode", "ignore", "filters", "cli_min_lines", "files") if k in case},
                                "impl": [t[:7] for t in impl["viols"]]})
                 break
     cands_all = None
@@ -517,13 +524,15 @@ def run(tier: str, seed: int, replay: str | None = None) -> int:
         chk.sample({"W": case["W"], "k": case["k"], "stream": case["stream"],
                     "files": {f["name"]: pm.render_file(f)[:400] for f in case["files"][:3]},
                     "impl": [t[6][:160] for t in impl["viols"][:4]]}, 3)
-        slim = {k: case[k] for k in ("W", "k", "stream", "via", "order_seed", "storage_mode", "ignore", "filters", "files") if k in case}
+        slim = {k: case[k] for k in ("W", "k", "stream", "via", "order_seed", "storage_mode", "ignore", "filters", "cli_min_lines", "files") if k in case}
         if any((case["files"][t[0]]["lang"] == "py") != (case["files"][rf]["lang"] == "py") for t in impl["viols"] for rf, _, _ in t[5]):
             chk.dist("cross-language duplicate reported")
         if case.get("ignore"):
             chk.dist("suppression:dry.ignore pattern")
         if case.get("filters"):
             chk.dist("dry.filters configured")
+        if case.get("cli_min_lines"):
+            chk.dist("via:cli with --min-lines overriding the --config file")
         for kind in sorted({pm.directive_of(f["lang"], l) for f in case["files"] for l in f["lines"]} - {None}):
             chk.dist("suppression:" + kind)
         chk.dist("storage:" + case.get("storage_mode", "memory"))
